@@ -71,7 +71,7 @@ DISP_AS = ["f, c, g are given by expression strings (the closure API is exercise
 
 PROPS = {
     "C01": P(["quad1d"], tb=QUAD_TB, assumptions=QUAD_AS,
-             partial="success clause ('a few hundred subdivisions suffice') and the transcendental class are explored, not proved; rounding explored"),
+             partial="C01Success.gk1d_poly_success: for polynomials of degree <= 19 and tol above twice the table-defect bound the routine succeeds on the first panel (no bisection), with the accuracy bound; for degree 20..31 and for the transcendental class the success clause ('a few hundred subdivisions suffice') is explored, not proved; rounding explored"),
     "C02": P(["quad1d"], tb=QUAD_TB, assumptions=QUAD_AS,
              partial="the tiling theorem is over Rat; at Float a panel one ulp wide bisects onto itself and is dropped (loss <= 1 ulp*|f|), reproduced by the Float model and bounded by the oracle"),
     "C05": P(["eval"], tb=["T2 translator translate/ad.py + translate/rustexpr.py (mini Rust-expression parser; every generated def is cross-checked bit-for-bit at Float against the real AD method by stream eval)",
@@ -91,9 +91,9 @@ PROPS = {
     "C08": P(["disp3d", "quad2d"], tb=DISP_TB + TRI_TB + QUAD_TB, assumptions=DISP_AS,
              partial="conditional on the tiling (C03); total checked against a closed form for linear/quadratic f and linear c on sets with holes"),
     "C09": P(["quad2d"], tb=QUAD_TB, assumptions=QUAD_AS,
-             partial="accuracy of the adaptive 2-D loop is explored against a nested Gauss-Legendre reference; theorems cover symmetries, degenerate triangles and the estimate"),
+             partial="C09Accuracy.gk2d_poly_accuracy / gkTriangle_poly_accuracy: on the exact class (polynomial in y of degree <= 31 with polynomial inner integral of degree <= 31; for triangles any term list of total degree <= 30 and ANY triangle) a successful result is within the outer table defect plus (2+1e-16) times the inner bound of the exact iterated integral, for any number of outer and inner bisections, and 0 <= e < tol; gk2d_poly_success gives first-panel success for degree <= 19; the iterated integral is not identified with a Mathlib area integral; beyond the exact class accuracy is explored against a nested Gauss-Legendre reference"),
     "C11": P(["disp2d"], tb=DISP_TB, assumptions=DISP_AS,
-             partial="Brent's |r - root| <= tol is not a theorem (the code returns the previous iterate); maximal monotone pieces are decided by the prescribed-root oracle. KNOWN FINDING: even-order zero of g' on a sampling point (see known_findings.jsonl)"),
+             partial="C11Roots: for polynomial data the interior piece boundaries are exactly the split points, and every one of them lies within 2*tol (RS display: 4*tol after the cluster merge) of a TRUE real zero of g' (resp. f' or g') in the same grid cell (IVT on the final Brent bracket) - tol itself is not guaranteed (kernel-checked counterexamples), and the converse ('every sign change is a boundary') is false when two sign changes share a cell (split_misses_sign_change_pair), consistent with the property's separation hypothesis; maximality of the pieces is decided by the prescribed-root oracle. KNOWN FINDING: even-order zero of g' on a sampling point (see known_findings.jsonl)"),
     "C12": P(["disp2d"], tb=DISP_TB, assumptions=DISP_AS, partial="'beyond rounding' clauses explored with ulp budgets"),
     "C13": P(["disp2d"], tb=DISP_TB, assumptions=DISP_AS,
              partial="curve end points within a multiple of tol and strict monotonicity per piece are decided by oracles on the prescribed-turning-point class"),
@@ -125,7 +125,8 @@ PROPS["C03"]["ties"] = PROPS["C03"]["ties"] + ["C04Triangle", "C04Quad", "C04Qua
 # derivative; the displays differentiate f, c, g through them
 for _pid in ("C07", "C08", "C11", "C12", "C13", "C14"):
     PROPS[_pid]["ties"] = PROPS[_pid]["ties"] + ["C05", "C05Defaults"]
-PROPS["C13"]["ties"] = PROPS["C13"]["ties"] + ["C07Accuracy"]
+PROPS["C13"]["ties"] = PROPS["C13"]["ties"] + ["C07Accuracy", "C11Roots"]
+PROPS["C08"]["ties"] = PROPS["C08"]["ties"] + ["C09Accuracy"]
 for _pid in ("C02", "C07", "C08", "C09", "C10", "C13"):
     PROPS[_pid]["ties"] = PROPS[_pid]["ties"] + ["C01Tables"]
 
